@@ -110,7 +110,7 @@ fn world(k: usize, scale: usize, thorough: bool, extra: &[u128]) -> (Vec<Act>, P
             Act::Inc(0, 10_000, 500_000),
             Act::Inc(0, 0, 200_000),
             Act::Inc(0, 5_000, 0),
-            Act::Inc(1, 30_000, 2_000_000),
+            Act::Inc(1, 360_000, 2_000_000),
             Act::Inc(2, 200_000, 1_000_000),
             Act::Dec(0, 0, 0),
             Act::Dec(0, 1, 0),
@@ -132,7 +132,7 @@ fn world(k: usize, scale: usize, thorough: bool, extra: &[u128]) -> (Vec<Act>, P
             Act::Probe,
         ];
         if thorough {
-            acts.extend([Act::Price(7, 9), Act::Inc(3, 40_000, 300_000), Act::Dec(3, 1, 0), Act::Liq(3), Act::Inc(1, e(0, 1_000, 60_000), e(1, 100_000, 3_000_000))]);
+            acts.extend([Act::Price(7, 9), Act::Inc(3, 40_000, 300_000), Act::Dec(3, 1, 0), Act::Liq(3), Act::Inc(1, e(0, 12_000, 720_000), e(1, 100_000, 3_000_000))]);
         }
         let probes = Probes {
             swap_amounts: vec![0, 1, 10, 1_000, 20_000, 1_000_000, 100_000_000, e(2, 2, 5_000_000)],
@@ -152,8 +152,8 @@ fn world(k: usize, scale: usize, thorough: bool, extra: &[u128]) -> (Vec<Act>, P
             Act::Swap(false, 100_000),
             Act::Inc(0, 10, 10_000),
             Act::Inc(0, 0, 10_000),
-            Act::Inc(1, 2, 0),
-            Act::Inc(1, 5, 20_000),
+            Act::Inc(1, 18_000, 0),
+            Act::Inc(1, 45_000, 20_000),
             Act::Inc(2, 30_000, 15_000),
             Act::Dec(0, 0, 0),
             Act::Dec(0, 1, 0),
